@@ -251,8 +251,9 @@ structure LineProg where
   decoded : Option (List Entry)
   deriving Repr
 
-/-- `LineProgram._decode_line_program`: entries, the final `file_entry` list, and where the
-    stream stands afterwards -/
+/-- `LineProgram._decode_line_program`: entries, the final `file_entry` list, and the local `offset` when the
+    loop ends — `stream.tell()` as soon as the body ran once; `program_start_offset` if it never ran (the
+    stream then stands wherever the header parse left it) -/
 def decodeLineProgram (env : Env) (S : DwarfStructs) (K : LnConsts) (data : Bytes) (lp : LineProg) :
     R (List Entry × Option (List Val) × Nat) := do
   let H ← Hdr.ofHeader lp.header
@@ -368,6 +369,37 @@ def getString (sec : Option Bytes) (x : Val) : R Val := do
 /-- decimal digits of a natural number, as ASCII (`str(x).encode()`) -/
 def decimalBytes (n : Nat) : Bytes := (toString n).toList.map fun c => UInt8.ofNat c.toNat
 
+/-- `repr` of a bytes object (CPython `PyBytes_Repr` with smart quotes) -/
+def pyBytesRepr (b : Bytes) : String :=
+  let q : Nat := if b.contains 0x27 && !b.contains 0x22 then 0x22 else 0x27
+  let hex2 (n : Nat) : List Char :=
+    let d := Nat.toDigits 16 n
+    if d.length = 1 then '0' :: d else d
+  let esc (c : UInt8) : List Char :=
+    let n := c.toNat
+    if n = q ∨ n = 0x5c then ['\\', Char.ofNat n]
+    else if n = 9 then ['\\', 't']
+    else if n = 10 then ['\\', 'n']
+    else if n = 13 then ['\\', 'r']
+    else if n < 32 ∨ n ≥ 127 then ['\\', 'x'] ++ hex2 n
+    else [Char.ofNat n]
+  String.ofList (['b', Char.ofNat q] ++ b.flatMap esc ++ [Char.ofNat q])
+
+/-- `str(x).encode()` for the values a line-table entry field can hold (an int; after a later field of the
+    same content type overwrote it, also an inline string or a data16 / block list of ints) -/
+def pyStrEncode : Val → R Bytes
+  | .int n => .ok (toString n).toUTF8.toList
+  | .bytes b => .ok (pyBytesRepr b).toUTF8.toList
+  | .none => .ok "None".toUTF8.toList
+  | .bool b => .ok (if b then "True" else "False").toUTF8.toList
+  | .str s => .ok s.toUTF8.toList
+  | .list xs => do
+    let items ← xs.mapM fun v => match v with
+      | .int n => pure (toString n)
+      | _ => .error .notImplemented
+    .ok ("[" ++ ", ".intercalate items ++ "]").toUTF8.toList
+  | .record _ => .error .notImplemented
+
 /-- `replace_value(data, content_type, replacer)` -/
 def replaceValue (replacer : Val → R Val) (ct : String) : List Val → R (List Val)
   | [] => .ok []
@@ -396,7 +428,8 @@ def resolveLoop (secs : Secs) : List Val → List Val → R (List Val)
       match secs.sup with
       | some supStr => resolveLoop secs rest (← replaceValue (getString supStr) ct data)
       | none =>
-        resolveLoop secs rest (← replaceValue (fun x => do return .bytes (decimalBytes (← x.asNat))) ct data)
+        -- lambda x: str(x).encode()
+        resolveLoop secs rest (← replaceValue (fun x => do return .bytes (← pyStrEncode x)) ct data)
     else if isForm "DW_FORM_strx" || isForm "DW_FORM_strx1" || isForm "DW_FORM_strx2"
         || isForm "DW_FORM_strx3" || isForm "DW_FORM_strx4" then
       .error .notImplemented
@@ -435,7 +468,7 @@ abbrev Cache := List (Nat × LineProg)
     `fmt` is `structs.dwarf_format` -/
 def parseLineProgramFresh (env : Env) (S : DwarfStructs) (fmt : Nat) (secs : Secs) (data : Bytes)
     (offset : Nat) : R LineProg := do
-  let (hdr0, tell) ← parseHeader env S data offset
+  let (hdr0, _) ← parseHeader env S data offset
   let hdr1 ← resolveStrings secs hdr0 "directory_entry_format" "directories"
   let hdr2 ← resolveStrings secs hdr1 "file_name_entry_format" "file_names"
   -- legacy-compatible tables
@@ -449,11 +482,19 @@ def parseLineProgramFresh (env : Env) (S : DwarfStructs) (fmt : Nat) (secs : Sec
     | _ => pure (hdr3, true)
   let unit_length ← (Val.record hdr4).getNat "unit_length"
   let end_offset := offset + unit_length + (if fmt = 32 then 4 else 12)
+  -- start_offset = offset + structs.initial_length_field_size() + 2 + (2 if version >= 5 else 0)
+  --                + structs.dwarf_format // 8 + header_length
+  -- (the program starts `header_length` bytes past the `header_length` field, wherever the parse of the
+  --  tables stopped: `stream.tell()` is not consulted)
+  let version ← (Val.record hdr4).getInt "version"
+  let header_length ← (Val.record hdr4).getNat "header_length"
+  let start_offset := offset + (if fmt = 32 then 4 else 12) + 2 + (if version ≥ 5 then 2 else 0) + fmt / 8
+    + header_length
   let fileEntry := match isList, Fields.get? hdr4 "file_entry" with
     | true, some (.list xs) => some xs
     | _, _ => none
   return { header := .record hdr4, fileEntry := fileEntry,
-           program_start_offset := tell, program_end_offset := end_offset, decoded := none }
+           program_start_offset := start_offset, program_end_offset := end_offset, decoded := none }
 
 /-- `_parse_line_program_at_offset` with `_linetable_cache` -/
 def parseLineProgramAtOffset (env : Env) (S : DwarfStructs) (fmt : Nat) (secs : Secs) (data : Bytes)
